@@ -36,7 +36,7 @@ impl Monitor for C05 {
         "C05"
     }
     fn rule(&self) -> String {
-        "cases = seeded random universes weighted to families that backtrack (medium / constrains-heavy / layered) with and without hints and soft lists, run synchronously and under an async schedule with random activity parameters; for every Ok result the reference `support` set (reachability from root requirements and accepted soft solvables over requirement edges whose satisfying candidate is in the solution) must equal the solution; hook monitor: every implied assignment on the final trail has a reason clause that contains it and was unit. distinct = content hash; non-trivial = distinct Ok case with >= 1 conflict (backjump) or restart and |solution| >= 3".into()
+        "cases = seeded random universes weighted to families that backtrack (medium / constrains-heavy / layered) with and without hints and soft lists, run synchronously and under an async schedule with random activity parameters; for every Ok result the reference `support` set (reachability from root requirements and accepted soft solvables over requirement edges whose satisfying candidate is in the solution) must equal the solution; hook monitor: every implied assignment on the final trail has a reason clause that contains it and was unit. a quarter of the cases additionally solve a different problem (two arbitrary version sets of the universe) on the same solver first and judge the second solution the same way; distinct = content hash; non-trivial = distinct Ok case with >= 1 conflict (backjump) or restart and |solution| >= 3".into()
     }
     fn cases(&self, tier: Tier) -> u64 {
         tier.pick(320_000, 6_400_000)
@@ -87,6 +87,25 @@ impl Monitor for C05 {
             }
             if hs.max_backjump >= 2 {
                 ctx.rep.count("ok-with-multi-level-backjump");
+            }
+        }
+        // "no extraneous solvables" also on a solver that has solved something ELSE before: whatever
+        // an earlier, different problem selected must not linger in the next solution
+        if h % 4 == 1 && !c.u.vsets.is_empty() {
+            let nv = c.u.vsets.len() as u64;
+            let other = Prob { reqs: vec![Req::Single((h / 7 % nv) as u32), Req::Single((h / 97 % nv) as u32)], cons: vec![], soft: vec![] };
+            let mut sess = crate::run::Session::new(u.clone(), &c.runs[0]);
+            let _ = sess.solve(&other);
+            ctx.rep.evaluations += 1;
+            let out = sess.solve(&c.p);
+            if let Outcome::Ok(sol) = &out {
+                ctx.rep.count("ok-on-a-solver-that-solved-a-different-problem-before");
+                let set: BTreeSet<u32> = sol.iter().copied().collect();
+                let reach = rf.support(&c.p, sol);
+                if reach != set {
+                    let extra: Vec<String> = set.difference(&reach).map(|&s| u.solv_label(s)).collect();
+                    ctx.violation("extraneous-solvable (solver reused after a different problem)", format!("first {}, then the problem: {:?} not needed by anything in {:?}", problem_text(&u, &other), extra, sol.iter().map(|&s| u.solv_label(s)).collect::<Vec<_>>()));
+                }
             }
         }
     }
